@@ -19,15 +19,21 @@ Thorough == IOEnv.VERIF_TIER = "thorough"
 \* pow: 0 = none; 1, 2, 3 = the LARGEST file of the source is an incompressible file of 2^11-4 / 2^14-4 / 2^16-4 bytes:
 \* stored sectored (512 B / 4 KiB / 16 KiB sectors) its stored size (raw + sector-offset table) crosses the power of two
 \* its raw size stays below - bit-width arithmetic of the HET/BET tables of V3/V4 targets
-Src(v, a, e, g, b, x) == [ver |-> v, at |-> a, empty |-> e, sig |-> g, sbs |-> b, edge |-> x, pow |-> 0]
+\* prov: provenance of the source: built by the builder | modified in place afterwards (a DELETED hash entry in front of a
+\* colliding listed file, an appended file, relocated tables) | embedded behind a 512 / 1024 byte prefix | built with an
+\* external SUPERSET listfile (300 names that are not in the archive: enough for 8-bit HET collisions on V3/V4)
+Src(v, a, e, g, b, x) == [ver |-> v, at |-> a, empty |-> e, sig |-> g, sbs |-> b, edge |-> x, pow |-> 0, prov |-> "built"]
+Provs == {"modified", "emb512", "emb1024", "superset"}
 Extras == IF Thorough THEN BOOLEAN \X BOOLEAN \X BOOLEAN
           ELSE {<<FALSE, FALSE, FALSE>>, <<TRUE, FALSE, FALSE>>, <<FALSE, TRUE, FALSE>>, <<FALSE, FALSE, TRUE>>, <<TRUE, TRUE, TRUE>>}
 Sources == {Src(v, t[1], t[2], t[3], b, FALSE) : v \in 1..4, t \in Extras, b \in {-1, 0}}
 EdgeSources == {Src(v, FALSE, FALSE, FALSE, -1, TRUE) : v \in {1, 4}}
+ProvSources == {[Src(v, a, FALSE, FALSE, -1, FALSE) EXCEPT !.prov = p] : v \in 1..4, a \in (IF Thorough THEN BOOLEAN ELSE {FALSE}), p \in Provs}
 PowSources  == {[Src(v, FALSE, FALSE, FALSE, b, FALSE) EXCEPT !.pow = p] : v \in 1..4, b \in {-1, 0}, p \in 1..3}
 Opt(t, c, b, se, ss, vf, lo) == [target |-> t, comp |-> c, bs |-> b, skipEnc |-> se, skipSig |-> ss, verify |-> vf, listOnly |-> lo]
 Targets == 0..4
-Comps   == {"keep", "none", "zlib", "bzip2"}
+\* every lossless method the library can write (ADPCM is lossy: not bit-identical by design)
+Comps   == {"keep", "none", "zlib", "bzip2", "sparse", "lzma"} \cup (IF Thorough THEN {"pkware", "huffman", "sparsezlib", "sparsebzip2"} ELSE {})
 Sizes   == {-1, 0, 3, 5}
 Default == Opt(0, "keep", -1, FALSE, TRUE, FALSE, FALSE)
 AllOpts == {Opt(t, c, b, se, ss, vf, lo) : t \in Targets, c \in Comps, b \in Sizes, se \in BOOLEAN, ss \in BOOLEAN, vf \in BOOLEAN, lo \in BOOLEAN}
@@ -41,7 +47,7 @@ ThoroughOpts == {o \in AllOpts : (o.listOnly => (o.target = 0 /\ o.comp = "keep"
 Opts == IF Thorough THEN ThoroughOpts ELSE QuickOpts
 EdgeOpts == {o \in AllOpts : Diff(o) \subseteq {"comp", "verify"}}
 PowOpts  == {o \in AllOpts : Diff(o) \subseteq {"target", "bs"}}
-Cases == SetToSeq({[src |-> s, opts |-> o] : s \in Sources, o \in Opts} \cup {[src |-> s, opts |-> o] : s \in EdgeSources, o \in EdgeOpts}
+Cases == SetToSeq({[src |-> s, opts |-> o] : s \in Sources \cup ProvSources, o \in Opts} \cup {[src |-> s, opts |-> o] : s \in EdgeSources, o \in EdgeOpts}
                   \cup {[src |-> s, opts |-> o] : s \in PowSources, o \in PowOpts})
 ASSUME ndJsonSerialize(IOEnv.CASES, Cases)
 ASSUME PrintT(<<"GENERATED", Len(Cases)>>)
